@@ -87,8 +87,10 @@ def draw_header(r):
                 hdr["%s_%d" % (pv, k)] = r.uniform(-1, 1) * dk * scale / (umax ** order)
     else:
         hdr["ctype1"], hdr["ctype2"] = "RA---TAN-SIP", "DEC--TAN-SIP"
-        order = r.randrange(2, 5)
+        order_a = r.randrange(2, 5)
+        order_b = order_a if chance(r, 0.5) else r.randrange(2, 5)      # A_ORDER and B_ORDER are independent keywords
         for pre in ("a", "b"):
+            order = order_a if pre == "a" else order_b
             hdr["%s_order" % pre] = order
             for p in range(order + 1):
                 for q in range(order + 1 - p):
@@ -96,8 +98,8 @@ def draw_header(r):
                         continue
                     dk = min(0.25 * D, 0.012 * R / (p + q))
                     hdr["%s_%d_%d" % (pre, p, q)] = r.uniform(-1, 1) * dk / (R ** (p + q))
-        hdr["ap_order"] = order
-        hdr["bp_order"] = order
+        hdr["ap_order"] = order_a
+        hdr["bp_order"] = order_b
         if chance(r, 0.4):
             # stored (first-order) inverse coefficients, as some pipelines write them
             for pre, ipre in (("a", "ap"), ("b", "bp")):
